@@ -358,10 +358,20 @@ class Policy:
         if self.inline_private and not callee.reachable and callee.kind != "Closure" and self.op_of(callee) is None \
                 and (not self.has_loop_or_recursion(callee) or self.only_iterator_loops(callee)):
             return True
+        # a public inherent method that no property names (a convenience added later: `square`, `cube`) is read in place like a
+        # private helper - what `hypot` computes through it is what it computes; the named API stays opaque (each is decided on its own)
+        if self.inline_private and callee.reachable and callee.trait is None and callee.self_ty == "TwoFloat" and callee.kind != "Closure" \
+                and callee.ident() not in NAMED_API and not self.has_loop_or_recursion(callee):
+            return True
         # op level: inline only conversions between TwoFloat and tuples/arrays (pure projections)
         if callee.trait == "core::convert::From" and callee.name == "from":
             return True
         return False
+
+# the public inherent functions that the properties name (their `observe_at` lists): the crate's API at the pinned commit
+NAMED_API = frozenset("TwoFloat::" + n for n in """abs acos acosh asin asinh atan atan2 atanh cbrt ceil copysign cos cosh div_euclid exp exp2 exp_m1
+ floor fract from_f64 hi hypot is_sign_negative is_sign_positive is_valid ln ln_1p lo log log10 log2 max min new_add new_div new_mul new_sub powf powi recip
+ rem_euclid round signum sin sin_cos sinh sqrt tan tanh to_degrees to_radians trunc mul_add abs_sub""".split())
 
 EXPLICIT_PANIC = re.compile(r"^core::panicking::|^core::option::(expect|unwrap)_failed|^core::result::unwrap_failed|begin_panic|panic_fmt|^core::slice::index::\w+_fail|^core::rt::")
 
